@@ -232,6 +232,7 @@ m("undecided-update-fstring-revert", "_snapshot/undecided_value.py", "          
 m("executed-test-file-counts-revert", "pytest_plugin.py", "        state().files_with_snapshots.add(str(test_file))\n", "        pass\n", ["C13"], "revert: a test failing before its snapshot loses its external under trim")
 m("compare-context-finally-revert", "_compare_context.py", "    try:\n        yield\n    finally:\n        # the comparison of the elements can raise an exception\n        _eq_check_only = old_eq_only\n", "    yield\n    _eq_check_only = old_eq_only\n", ["C02"], "revert: a raising comparison during alignment leaves compare-only mode on")
 m("format-command-output-escape-revert", "_format.py", "                + escape(result.stdout.decode(\"utf-8\"))\n                + escape(result.stderr.decode(\"utf-8\"))\n", "                + result.stdout.decode(\"utf-8\")\n                + result.stderr.decode(\"utf-8\")\n", ["C15"], "revert: formatter error output interpreted as rich markup")
+m("empty-format-command-revert", "_config.py", 'tool_config.get("format-command", None) or None', 'tool_config.get("format-command", None)', ["C20"], "revert: format-command=\"\" is executed as a command")
 m("run-inline-external-import-only", "testing/_example.py", '                    if used_hasrepr(tree):\n                        required_imports.append("HasRepr")', '                    if used_hasrepr(tree) and used_externals(tree):\n                        required_imports.append("HasRepr")', ["C19"], "HasRepr import only added together with external")
 
 
